@@ -381,6 +381,10 @@ class MHist(Monitor):
                     self._flag(w, arn, "history_shrank", "history went from %d to %d events" % (done, n))
                     continue
             if n == done:
+                # nothing new: a history that has been closed keeps agreeing with the record (an execution name started again gets a new history)
+                rec0 = e.executions.get(arn)
+                if arn in self.term and rec0 is not None and rec0.get("status") == "RUNNING":
+                    self._flag(w, arn, "terminal_disagrees", "the history ends with %s but the record says RUNNING" % h[self.term[arn]]["type"], what="closed-history-running-record")
                 continue
             rec = e.executions.get(arn)
             sm = None
